@@ -350,6 +350,8 @@ class isoparser(object):
 
             if timestr[pos:pos + 1] in b'-+Zz':
                 # Detect time zone boundary
+                if comp == 0:
+                    raise ValueError('ISO time requires an hour')
                 components[-1] = self._parse_tzstr(timestr[pos:])
                 pos = len_str
                 break
